@@ -129,13 +129,17 @@ func (n *Nat) EuclideanDivVarTime(remainder, numerator, denominator *Nat) ct.Boo
 
 	var qq saferith.Nat
 	qq.Div(nn, dd, -1)
-	((*saferith.Nat)(n)).SetNat(&qq)
-	((*saferith.Nat)(n)).Resize(min(numerator.AnnouncedLen(), numerator.AnnouncedLen()-dd.BitLen()+2))
+	// n may alias numerator: read everything that depends on the numerator before n is written.
+	qLen := min(numerator.AnnouncedLen(), numerator.AnnouncedLen()-dd.BitLen()+2)
+	var rr saferith.Nat
 	if remainder != nil {
-		var rr saferith.Nat
 		rr.Mul((*saferith.Nat)(denominator), &qq, -1)
 		rr.Sub(nn, &rr, -1)
 		rr.Resize(dd.BitLen())
+	}
+	((*saferith.Nat)(n)).SetNat(&qq)
+	((*saferith.Nat)(n)).Resize(qLen)
+	if remainder != nil {
 		((*saferith.Nat)(remainder)).SetNat(&rr)
 	}
 
